@@ -5,6 +5,7 @@ import json, itertools, struct, os, re
 from decimal import Decimal, getcontext
 from fractions import Fraction
 from vlib import *
+from props.kernelcommon import kernel_tie_leg
 from props import layerb
 
 HDR = ("From Coq Require Import ZArith List Bool.\nImport ListNotations.\n"
@@ -429,8 +430,9 @@ def run(chk, replay=None):
     import time as _t
     _t0 = _t.time()
     exact_tree = tree_has_exact_right_angles()
-    proof_files = ["Geom/Transform_proofs.v", "Geom/TransformFloat_proofs.v"] + (["Geom/TransformFloatExact.v"] if exact_tree else [])
+    proof_files = ["Geom/Transform_proofs.v", "Geom/TransformFloat_proofs.v", "Geom/KernelsTie_proofs.v"] + (["Geom/TransformFloatExact.v"] if exact_tree else [])
     chk.proof_leg(["Geom/TransformCheck.vo"], "Properties/C12.v", proof_files, "Properties.C12")
+    kernel_tie_leg(chk, "transform")      # generated-from-source kernels = the model functions (Properties/Kernels.v)
     chk.cov["right_angle_variant"] = ("geom.rs has sin_cos_degrees: exact table required, Geom/TransformFloatExact.v (table_exact_now) in the proof leg, any-depth theorems unconditional"
                                       if exact_tree else
                                       "geom.rs calls to_radians().sin()/.cos(): libm table, bounded-depth theorems; the any-depth theorems keep table_exactb as hypothesis")
